@@ -47,7 +47,7 @@ def conf_batched(ctx, module, cfg, recs, label, bsize=32, big=2000, size=lambda 
     if cur:
         batches.append(cur)
     before = {k: ctx.cov.get(k, 0) for k in ('impl_traces', 'tlc_checked_cases')}
-    pr, ir = ucheck.conformance(ctx, module, cfg, [{'b': [recs[k] for k in b]} for b in batches], label, chunk=max(200, 12000 // bsize))
+    pr, ir = ucheck.conformance(ctx, module, cfg, [{'b': [recs[k] for k in b]} for b in batches], label, chunk=max(100, -(-len(batches) // 4)))
     prej, irej = [], []
     for rejected, out in ((pr, prej), (ir, irej)):
         rejected = sorted(rejected)
